@@ -370,6 +370,224 @@ Qed.
 End Inv.
 
 (* ---------------------------------------------------------------------------------------------
+   Determinism: a second invariant (on top of Inv) relating blk/succ/res/result to the sequential selection *)
+Section Det.
+Variables N na : nat.
+Variable lt : nat -> nat -> bool.
+Hypothesis HN : 1 <= N.
+Hypothesis Hna : 2 <= na.
+Notation gsel := (goodsel na lt).
+
+Lemma scan_spec : forall b o len j0 r,
+  j0 + len = N ->
+  (forall j, j0 <= j -> j < N -> b * N + j < na -> o j = Some (b * N + j)) ->
+  (1 <= b * N + j0 -> r = Some 0) ->
+  match scan N na lt b o (seq j0 len) r with
+  | (r', None) => (forall a, 1 <= a -> b * N + j0 <= a -> a < b * N + N -> a < na -> gsel a = false)
+                  /\ ((1 <= b * N + j0 \/ 1 <= len) -> r' = Some 0)
+  | (r', Some (x, f)) => exists a, x = Some a /\ f = lt a 0 /\ b * N + j0 <= a /\ a < b * N + N /\ 1 <= a /\ a < na /\ gsel a = true
+                  /\ (forall a', 1 <= a' -> b * N + j0 <= a' -> a' < a -> gsel a' = false)
+  end.
+Proof.
+  intros b o len. induction len as [|l IH]; intros j0 r Hlen Ho Hr; simpl.
+  - split; [intros; exfalso; lia | intros [H|H]; [auto | exfalso; lia]].
+  - assert (Hb : b <> 0 -> 1 <= b * N) by (intro; destruct b; [congruence | simpl; lia]).
+    destruct (Nat.leb_spec na (b * N + j0)) as [Hge|Hlt].
+    + split; [intros; exfalso; lia | intros [H|H]; [auto | ]]. apply Hr; lia.
+    + destruct (Nat.eqb_spec b 0) as [Hb0|Hb0]; destruct (Nat.eqb_spec j0 0) as [Hj0|Hj0]; simpl.
+      * (* b = 0, j0 = 0: res = residual of trial 0 *)
+        subst b j0. assert (Ho0 : o 0 = Some 0) by (rewrite (Ho 0); [reflexivity | lia | lia | simpl; lia]).
+        specialize (IH 1 (o 0)). simpl in IH.
+        assert (IH' := IH ltac:(lia) ltac:(intros; apply Ho; simpl; lia) ltac:(intros; exact Ho0)). clear IH.
+        simpl in *. destruct (scan N na lt 0 o (seq 1 l) (o 0)) as [r' [[x f]|]].
+        -- destruct IH' as (a & Hx & Hf & Hlo & Hhi & H1a & Hana & Hga & Hmin). exists a. repeat split; auto; try lia; (intros a' ? ? ?; apply Hmin; lia).
+        -- destruct IH' as [Hall Hr']. split; [intros; apply Hall; lia | intros; apply Hr'; lia].
+      * (* b = 0, j0 > 0 *)
+        assert (Hidx : 1 <= b * N + j0) by lia. rewrite (Ho j0) by lia. rewrite (Hr Hidx). simpl.
+        fold (gsel (b * N + j0)).
+        destruct (gsel (b * N + j0)) eqn:Hg.
+        -- exists (b * N + j0). repeat split; auto; try lia; (intros; exfalso; lia).
+        -- specialize (IH (S j0) (Some 0) ltac:(lia) ltac:(intros; apply Ho; lia) ltac:(intros; reflexivity)).
+           destruct (scan N na lt b o (seq (S j0) l) (Some 0)) as [r' [[x f]|]].
+           ++ destruct IH as (a & Hx & Hf & Hlo & Hhi & H1a & Hana & Hga & Hmin). exists a. repeat split; auto; try lia;
+              (intros a' ? ? ?; destruct (Nat.eq_dec a' (b * N + j0)); [subst; auto | apply Hmin; lia]).
+           ++ destruct IH as [Hall Hr']. split; [|intros; apply Hr'; lia].
+              intros a H1 H2 H3 H4. destruct (Nat.eq_dec a (b * N + j0)); [subst; auto | apply Hall; lia].
+      * (* b > 0, j0 = 0 *)
+        assert (Hidx : 1 <= b * N + j0) by (specialize (Hb Hb0); lia). rewrite (Ho j0) by lia. rewrite (Hr Hidx). simpl.
+        fold (gsel (b * N + j0)).
+        destruct (gsel (b * N + j0)) eqn:Hg.
+        -- exists (b * N + j0). repeat split; auto; try lia; (intros; exfalso; lia).
+        -- specialize (IH (S j0) (Some 0) ltac:(lia) ltac:(intros; apply Ho; lia) ltac:(intros; reflexivity)).
+           destruct (scan N na lt b o (seq (S j0) l) (Some 0)) as [r' [[x f]|]].
+           ++ destruct IH as (a & Hx & Hf & Hlo & Hhi & H1a & Hana & Hga & Hmin). exists a. repeat split; auto; try lia;
+              (intros a' ? ? ?; destruct (Nat.eq_dec a' (b * N + j0)); [subst; auto | apply Hmin; lia]).
+           ++ destruct IH as [Hall Hr']. split; [|intros; apply Hr'; lia].
+              intros a H1 H2 H3 H4. destruct (Nat.eq_dec a (b * N + j0)); [subst; auto | apply Hall; lia].
+      * (* b > 0, j0 > 0 *)
+        assert (Hidx : 1 <= b * N + j0) by lia. rewrite (Ho j0) by lia. rewrite (Hr Hidx). simpl.
+        fold (gsel (b * N + j0)).
+        destruct (gsel (b * N + j0)) eqn:Hg.
+        -- exists (b * N + j0). repeat split; auto; try lia; (intros; exfalso; lia).
+        -- specialize (IH (S j0) (Some 0) ltac:(lia) ltac:(intros; apply Ho; lia) ltac:(intros; reflexivity)).
+           destruct (scan N na lt b o (seq (S j0) l) (Some 0)) as [r' [[x f]|]].
+           ++ destruct IH as (a & Hx & Hf & Hlo & Hhi & H1a & Hana & Hga & Hmin). exists a. repeat split; auto; try lia;
+              (intros a' ? ? ?; destruct (Nat.eq_dec a' (b * N + j0)); [subst; auto | apply Hmin; lia]).
+           ++ destruct IH as [Hall Hr']. split; [|intros; apply Hr'; lia].
+              intros a H1 H2 H3 H4. destruct (Nat.eq_dec a (b * N + j0)); [subst; auto | apply Hall; lia].
+Qed.
+
+Inductive cls := ClCreate | ClLoop | ClAfter.
+Definition cls_of (c : cpc) : cls :=
+  match c with
+  | CCreate _ => ClCreate
+  | CLockA | CSetRun | CUnlockA | CLockB | CLoopB _ | CCvWait | CWoken | CRead => ClLoop
+  | _ => ClAfter end.
+
+Definition dok (s : state) : Prop :=
+  match cls_of (cp s) with
+  | ClCreate => blk s = 0 /\ succ s = false /\ result s = None
+  | ClLoop => succ s = false /\ result s = None /\ (1 <= blk s -> res s = Some 0) /\
+              (forall a, 1 <= a -> a < blk s * N -> a < na -> gsel a = false)
+  | ClAfter => succ s = true /\ exists a, result s = Some (Some a, lt a 0) /\ is_first_good na lt a
+  end.
+
+Lemma cls_wake : forall c, cls_of (wake_c c) = cls_of c.
+Proof. destruct c; reflexivity. Qed.
+
+Lemma dok_ext : forall s s', cls_of (cp s') = cls_of (cp s) -> blk s' = blk s -> succ s' = succ s -> res s' = res s ->
+  result s' = result s -> dok s -> dok s'.
+Proof. intros s s' H1 H2 H3 H4 H5 H. unfold dok in *. rewrite H1, H2, H3, H4, H5. exact H. Qed.
+
+Lemma dok_wstep : forall s j s', wstep s j = Some s' -> dok s -> dok s'.
+Proof.
+  intros s j s' Hs. apply dok_ext; unfold wstep in Hs;
+    destruct (wp s j); try discriminate; try destruct (free s); try discriminate; try destruct (st s j);
+    inversion Hs; subst s'; simpl; rewrite ?cls_wake; reflexivity.
+Qed.
+
+Lemma dok_spur : forall s t s', spurious N s t = Some s' -> dok s -> dok s'.
+Proof.
+  intros s t s' Hs. destruct t as [|j]; simpl in Hs.
+  - destruct (cp s) eqn:Hc; try discriminate. inversion Hs; subst s'. unfold dok; simpl. rewrite Hc. simpl. auto.
+  - destruct (j <? N); [|discriminate]. destruct (wp s j); try discriminate. inversion Hs; subst s'.
+    apply dok_ext; reflexivity.
+Qed.
+
+Lemma nblocks_pos : 0 < nblocks N na.
+Proof. unfold nblocks. apply Nat.div_str_pos. lia. Qed.
+
+Lemma nblocks_cover : na <= nblocks N na * N.
+Proof.
+  unfold nblocks. assert (HN0 : N <> 0) by lia.
+  pose proof (Nat.mul_succ_div_gt (na + N - 1) N HN0) as H. rewrite Nat.mul_succ_r in H.
+  rewrite (Nat.mul_comm N) in H. lia.
+Qed.
+
+Lemma mul_le_l : forall a b, a <= b -> a * N <= b * N.
+Proof. intros. apply Nat.mul_le_mono_r. assumption. Qed.
+
+Lemma dok_cstep : forall s s', Inv N na s -> dok s -> cstep N na lt true s = Some s' -> dok s'.
+Proof.
+  intros s s' [Hg Hw] Hd Hs. unfold cstep in Hs. unfold dok in Hd.
+  destruct (cp s) eqn:Hc; simpl in Hd;
+    try (try (destruct (free s); [|discriminate]); inversion Hs; subst s'; unfold dok; simpl; rewrite ?cls_wake, ?Hc; simpl; exact Hd).
+  - (* CCreate *) inversion Hs; subst s'. unfold dok; simpl.
+    destruct (S k <? N); simpl; [exact Hd|].
+    unfold loop_head. pose proof nblocks_pos as Hp. destruct (Nat.ltb_spec 0 (nblocks N na)); [|lia]. simpl.
+    destruct Hd as (Hb & Hsu & Hre). rewrite Hb. repeat split; auto; intros; exfalso; lia.
+  - (* CLoopB *) destruct (chk && all_done N na s); inversion Hs; subst s'; unfold dok; simpl; exact Hd.
+  - (* CRead *)
+    destruct Hd as (Hsu & Hre & Hres & Hall).
+    pose proof (scan_spec (blk s) (out s) N 0 (res s)) as Hsc.
+    assert (H1 : 0 + N = N) by lia.
+    assert (H2 : forall j, 0 <= j -> j < N -> blk s * N + j < na -> out s j = Some (blk s * N + j)).
+    { intros j _ Hj Hlt. specialize (Hw j Hj). unfold wok in Hw. simpl in Hw.
+      destruct Hw as (_ & _ & _ & _ & Ho). apply Ho. unfold in_block.
+      destruct (Nat.ltb_spec j N); [|lia]. destruct (Nat.ltb_spec (blk s * N + j) na); [reflexivity|lia]. }
+    assert (H3 : 1 <= blk s * N + 0 -> res s = Some 0).
+    { intros H. apply Hres. destruct (blk s); [simpl in H; lia | lia]. }
+    specialize (Hsc H1 H2 H3). clear H1 H2 H3.
+    destruct (scan N na lt (blk s) (out s) (seq 0 N) (res s)) as [r [[x f]|]]; inversion Hs; subst s'; clear Hs; unfold dok; simpl.
+    + (* a step was accepted *)
+      unfold loop_head. rewrite andb_false_r. simpl.
+      destruct Hsc as (a & Hx & Hf & Hlo & Hhi & H1a & Hana & Hga & Hmin). subst x f.
+      split; [reflexivity|]. exists a. split; [reflexivity|].
+      unfold is_first_good. repeat split; auto.
+      intros k [Hk1 Hk2]. destruct (Nat.lt_ge_cases k (blk s * N)); [apply Hall; lia | apply Hmin; lia].
+    + (* none accepted in this block *)
+      destruct Hsc as (Hnone & Hr').
+      assert (Hall' : forall a, 1 <= a -> a < S (blk s) * N -> a < na -> gsel a = false).
+      { intros a Ha1 Ha2 Ha3. simpl in Ha2. destruct (Nat.lt_ge_cases a (blk s * N)); [apply Hall; lia | apply Hnone; lia]. }
+      unfold loop_head. rewrite Hsu. simpl. rewrite andb_true_r.
+      destruct (Nat.ltb_spec (S (blk s)) (nblocks N na)) as [Hlt|Hge]; simpl.
+      * repeat split; auto; (intros _; apply Hr'; right; lia).
+      * exfalso. pose proof nblocks_cover as Hcov. pose proof (mul_le_l _ _ Hge) as Hm.
+        assert (Hgood : gsel (na - 1) = true) by (unfold goodsel; rewrite Nat.eqb_refl; apply orb_true_r).
+        rewrite Hall' in Hgood; [discriminate | lia | lia | lia].
+  - (* CJoin *) destruct (wp s k); try discriminate. inversion Hs; subst s'. unfold dok; simpl. destruct (S k <? N); simpl; exact Hd.
+Qed.
+
+Lemma dok_init : dok init.
+Proof. unfold dok; simpl. auto. Qed.
+
+Lemma inv2_reachable : forall s, reachable N na lt true s -> Inv N na s /\ dok s.
+Proof.
+  induction 1 as [|s t s' Hr [Hi Hd] Hs|s t s' Hr [Hi Hd] Hs].
+  - split; [apply inv_init; exact HN | apply dok_init].
+  - split; [eapply inv_step; eauto|].
+    destruct t as [|j]; simpl in Hs.
+    + eapply dok_cstep; eauto.
+    + destruct (j <? N); [|discriminate]. eapply dok_wstep; eauto.
+  - split; [apply (inv_spur N na lt s t s' Hi Hs) | eapply dok_spur; eauto].
+Qed.
+
+(* the result of a finished run is the sequential selection, whatever the schedule and the number of workers *)
+Lemma deterministic_reachable : forall s, reachable N na lt true s -> finished s ->
+  exists a, result s = Some (Some a, lt a 0) /\ is_first_good na lt a.
+Proof.
+  intros s Hr Hf. destruct (inv2_reachable s Hr) as [_ Hd]. unfold dok in Hd. unfold finished in Hf. rewrite Hf in Hd.
+  simpl in Hd. destruct Hd as [_ Hd]. exact Hd.
+Qed.
+
+Lemma first_good_unique : forall a b, is_first_good na lt a -> is_first_good na lt b -> a = b.
+Proof.
+  intros a b (Ha1 & Ha2 & Ha3) (Hb1 & Hb2 & Hb3).
+  destruct (Nat.lt_trichotomy a b) as [H|[H|H]]; auto.
+  - rewrite (Hb3 a) in Ha2; [discriminate | lia].
+  - rewrite (Ha3 b) in Hb2; [discriminate | lia].
+Qed.
+
+Lemma find_first : forall (f : nat -> bool) len start a, find f (seq start len) = Some a ->
+  start <= a < start + len /\ f a = true /\ forall k, start <= k < a -> f k = false.
+Proof.
+  intros f. induction len as [|l IH]; intros start a H; simpl in H; [discriminate|].
+  destruct (f start) eqn:Hf.
+  - inversion H; subst. repeat split; auto; try lia; (intros; exfalso; lia).
+  - destruct (IH (S start) a H) as (H1 & H2 & H3). repeat split; auto; try lia;
+    (intros k Hk; destruct (Nat.eq_dec k start); [subst; auto | apply H3; lia]).
+Qed.
+
+Lemma find_none : forall (f : nat -> bool) len start, find f (seq start len) = None -> forall k, start <= k < start + len -> f k = false.
+Proof.
+  intros f. induction len as [|l IH]; intros start H k Hk; simpl in H; [exfalso; lia|].
+  destruct (f start) eqn:Hf; [discriminate|].
+  destruct (Nat.eq_dec k start); [subst; auto | apply (IH (S start) H); lia].
+Qed.
+
+Lemma deterministic_spec : forall s, reachable N na lt true s -> finished s -> result s = walk_spec na lt.
+Proof.
+  intros s Hr Hf. destruct (deterministic_reachable s Hr Hf) as (a & Hres & Hfg).
+  unfold walk_spec. destruct (find gsel (seq 1 (na - 1))) as [b|] eqn:Hfind.
+  - destruct (find_first _ _ _ _ Hfind) as (H1 & H2 & H3).
+    assert (Hb : is_first_good na lt b) by (unfold is_first_good; repeat split; auto; lia).
+    rewrite (first_good_unique a b Hfg Hb) in Hres. exact Hres.
+  - exfalso. destruct Hfg as (H1 & H2 & _). rewrite (find_none _ _ _ Hfind a) in H2; [discriminate | lia].
+Qed.
+End Det.
+
+
+(* ---------------------------------------------------------------------------------------------
    Concrete runs (non-vacuity of the theorems' hypotheses), by evaluation *)
 Definition lt_ex (a b : nat) : bool := match a, b with 2, 0 => true | _, _ => false end.
 Definition ex_schedule : list nat :=
